@@ -142,6 +142,11 @@ def labelOfStr (s : String) : Bytes := (UInt8.ofNat s.utf8ByteSize) :: s.toUTF8.
 def bigRecord (name : Name) (i : Nat) : Resource :=
   ⟨name, 16, 1, 300, .raw ([99, UInt8.ofNat i] ++ List.replicate 98 0)⟩
 
+/-- the UDP listener's client limit (server_udp.go `handleReq`): the class of the query's OPT record if it has one
+    (`opt`, `size`), else 0; at least 512; never more than a UDP datagram can carry (`maxUdpPayloadSize`) -/
+def udpClientSize (opt : Bool) (size : Nat) : Nat :=
+  Nat.min (if opt ∧ size ≥ 512 then size else 512) Facts.udp_maxPayload
+
 def runUdpSize (case impl : String) : String × String :=
   let toks := words case
   match (kvGet toks "opt").bind boolOfStr, kvNat toks "size", kvNat toks "k", kvNat toks "seq" with
@@ -158,7 +163,7 @@ def runUdpSize (case impl : String) : String × String :=
         additionals := if opt then [Router.newEDNS0 Router.udpSize []] else [] }
     -- max(512, advertised size), and never more than a UDP datagram can carry (server_udp.go maxUdpPayloadSize):
     -- beyond that the write fails and the client would get no response at all (C03)
-    let clientSize := Nat.min (if opt ∧ size ≥ 512 then size else 512) Facts.udp_maxPayload
+    let clientSize := udpClientSize opt size
     let out := match packMsg resp true clientSize (msgLen resp) with
       | .ok bs =>
         match unpackMsg bs with
